@@ -30,7 +30,7 @@ Obligations (prefix write_column[v1|v2].):
   statistics.null_count_is_missing_cells
   page.payload_codec_is_colmeta_codec, data_page_v2.values_codec_is_colmeta_codec_iff_is_compressed  (+ "[compression is not a dict lacking 'type']")
      posed over (page of an arbitrary iteration, exit state) pairs: both sides only depend on the loop-invariant `compression` argument
-make_row_group.{empty_frame_returns_None_without_writing, nonempty_frame_returns_a_row_group, rg.num_rows_is_len_data,
+make_row_group.{chunk_written_from_the_column_named_by_its_schema_element, empty_frame_returns_None_without_writing, nonempty_frame_returns_a_row_group, rg.num_rows_is_len_data,
   rg.total_byte_size_is_sum_of_total_uncompressed_size, rg.columns_are_the_chunks_in_schema_order, one_chunk_per_typed_schema_element_in_schema_order,
   chunk_num_values_is_num_rows, schema_loop.invariant_*}
 iter_dataframe[int|None|list].{chunk.one_slice_per_offset, chunk.starts_at_its_offset_first_at_0, chunk.slices_adjacent_last_open_ended,
@@ -74,7 +74,8 @@ ASSUMED = [
     "precondition: datapage_version (after defaulting) is 1 or 2; compression is None, a non-empty str, or a dict",
     "exceptions raised inside opaque pandas calls of the statistics block only lead to stats = False, a state that is explored anyway",
     "make_row_group: write_column by the contract proved here (returns a chunk with meta_data.total_uncompressed_size / num_values); "
-    "the column-name validation raises or passes without side effect",
+    "the column-name validation raises or passes without side effect; data[label] is the column LABELLED label, data.iloc[:, k] the "
+    "column at POSITION k, and NOTHING relates positions to labels (the column order of the frame is arbitrary)",
     "iter_dataframe: list(range(0, n, c)) by the range contract above; data.iloc[s:e] with e None is open-ended",
 ]
 
@@ -554,6 +555,14 @@ class BEngine(Engine):
         if not e.elts:
             return [(p, Custom(GList()))]
         return super().e_List(e, p)
+
+    def e_Slice(self, e, p):
+        # a bare slice inside a subscript tuple (x.iloc[:, k]); direct slices x[a:b] never get here
+        out = []
+        for q, vs in self.ev_list([x for x in (e.lower, e.upper, e.step) if x is not None], p):
+            it = iter(vs)
+            out.append((q, Custom(SliceVal(*[(next(it) if x is not None else None) for x in (e.lower, e.upper, e.step)]))))
+        return out
 
     def e_Starred(self, e, p):
         return [(q, Opaque(("starred", next(self.counter)))) for q, v in self.ev(e.value, p)]
@@ -1475,7 +1484,22 @@ def chunk_field(name):
     return CHUNK_FIELD[name]
 
 
+COL_LABEL = z3.Function("COL_of_label", I, I)          # ghost: the column of `data` LABELLED name(j) / literal_eval(name(j))
+COL_POS = z3.Function("COL_at_position", I, I)         # ghost: the column at a POSITION of `data`; no relation to labels is assumed
+SCHEMA_IDX = {}                                        # str(j) -> z3 term j (opaque tags carry strings)
+
+
+class SliceVal:
+    """a bare slice inside a subscript tuple: data.iloc[:, k]"""
+    tracked = False
+
+    def __init__(self, lo, hi, step):
+        self.lo, self.hi, self.step = lo, hi, step
+
+
 class Frame:
+    """`data`: data[label] is the column LABELLED label; data.iloc[:, k] is the column at POSITION k.  The column order of the
+    frame is arbitrary: nothing relates positions to labels (write_row_groups only compares sorted column names)."""
     tracked = False
 
     def __init__(self, rows):
@@ -1485,20 +1509,44 @@ class Frame:
         return PyI(self.rows)
 
     def attr(self, eng, p, name):
+        if name in ("iloc", "iat"):
+            return Custom(FrameILoc(self))
         return Opaque(("frame", name))
 
     def getitem(self, eng, p, i, node):
-        return Custom(ColData(self, i))
+        if isinstance(i, Opaque) and isinstance(i.tag, tuple) and len(i.tag) == 2 and i.tag[0] in ("colname", "literal_name") \
+                and i.tag[1] in SCHEMA_IDX:
+            return Custom(ColData(self, i.tag[0], SCHEMA_IDX[i.tag[1]], i))
+        return Custom(ColData(self, "other", None, i))
+
+
+class FrameILoc:
+    tracked = False
+
+    def __init__(self, frame):
+        self.frame = frame
+
+    def getitem(self, eng, p, i, node):
+        if isinstance(i, Tup) and len(i.items) == 2 and isinstance(i.items[0], Custom) and isinstance(i.items[0].h, SliceVal) \
+                and i.items[0].h.lo is None and i.items[0].h.hi is None and i.items[0].h.step is None \
+                and isinstance(i.items[1], (PyI, PyB)):
+            return Custom(ColData(self.frame, "position", eng.as_int(i.items[1], p), i))
+        return Custom(ColData(self.frame, "other", None, i))
+
+    def slice(self, eng, p, lo, hi, node):
+        raise Unsupported("row slice of the frame in make_row_group")
 
 
 class ColData:
+    """a column of the frame: kind 'colname' = COL_LABEL(name of schema element idx), 'literal_name' = COL_LABEL(literal_eval(name of
+    schema element idx)), 'position' = COL_POS(idx), 'other' = anything else"""
     tracked = False
 
-    def __init__(self, frame, key):
-        self.frame, self.key = frame, key
+    def __init__(self, frame, kind, idx, key):
+        self.frame, self.kind, self.idx, self.key = frame, kind, idx, key
 
     def attr(self, eng, p, name):
-        return Opaque(("coldata", str(getattr(self.key, "tag", self.key)), name))
+        return Opaque(("coldata", self.kind, str(self.idx), name))
 
     def len(self, eng, p):
         return PyI(self.frame.rows)
@@ -1509,6 +1557,7 @@ class SchemaEl:
 
     def __init__(self, j):
         self.j = j
+        SCHEMA_IDX[str(j)] = j
 
     def attr(self, eng, p, name):
         if name == "type":
@@ -1566,6 +1615,14 @@ class Schema:
     def __init__(self, R):
         self.R = R
 
+    def len(self, eng, p):
+        return PyI(self.R.M)
+
+    def getitem(self, eng, p, i, node):
+        k = z3.simplify(eng.as_int(i, p))
+        eng.oblige(p, f"{eng.cur_func}.schema_index_in_range@L{node.lineno}", "safety", z3.And(k >= -self.R.M, k < self.R.M), node)
+        return Custom(SchemaEl(z3.simplify(z3.If(k < 0, self.R.M + k, k))))
+
     def for_loop(self, eng, p, st):
         R, fn = self.R, eng.cur_func
         R.loops += 1
@@ -1612,11 +1669,29 @@ class Schema:
                 r.ctl = None
                 items, calls = cols.items(r), r.ghost.get("wc_calls", [])
                 ok_typed = len(items) == 1 and len(calls) == 1 and isinstance(items[0], Custom) and items[0].h is calls[0]["chunk"] \
-                    and calls[0]["col_j"] is not None and calls[0]["col_j"].eq(j) and calls[0]["key_j"] == str(j) and calls[0]["file_ok"]
+                    and calls[0]["col_j"] is not None and calls[0]["col_j"].eq(j) and calls[0]["file_ok"]
+                # which column of the frame is written under schema element j: the one LABELLED by the element
+                mi = r.opq.get(("isinstance", ("frame", "columns"), "pd.MultiIndex"))
+                MI = mi.z if isinstance(mi, PyB) else fresh_bool("frame_columns_is_MultiIndex")
+                lit_failed = z3.BoolVal(str(j) in r.ghost.get("literal_eval_failed", []))
+                gs = []
+                for c in calls:
+                    cd = c["coldata"]
+                    if cd is None or cd.frame is not R.frame or cd.kind not in ("colname", "literal_name"):
+                        gs.append(z3.BoolVal(False))
+                    elif cd.kind == "colname":
+                        gs.append(z3.And(cd.idx == j, z3.Or(z3.Not(MI), lit_failed)))
+                    else:
+                        gs.append(z3.And(cd.idx == j, MI))
+                eng.oblige(r, f"{fn}.chunk_written_from_the_column_named_by_its_schema_element", "post",
+                           z3.Implies(HASTYPE(j), z3.And(*gs) if gs else z3.BoolVal(False)), st,
+                           "the column handed to write_column for schema element e is data[e.name] - the column LABELLED e.name (MultiIndex "
+                           "frame: data[literal_eval(e.name)] when it parses, else data[e.name]); never a column chosen by position, "
+                           "the column order of the frame being arbitrary")
                 ok_untyped = len(items) == 0 and len(calls) == 0
                 eng.oblige(r, f"{fn}.one_chunk_per_typed_schema_element_in_schema_order", "post",
                            z3.If(HASTYPE(j), z3.BoolVal(ok_typed), z3.BoolVal(ok_untyped)), st,
-                           "for schema element j: if it has a type, exactly one write_column(f, data[<name of element j>], element j) "
+                           "for schema element j: if it has a type, exactly one write_column(f, <a column>, element j) "
                            "and its chunk is appended next; otherwise nothing is written or appended")
                 if calls:
                     nv = calls[0]["chunk"].get("meta_data").h.get("num_values")
@@ -1631,6 +1706,7 @@ class RGWorld:
     def __init__(self):
         self.rows, self.M, self.pos0 = z3.Int("len_data"), z3.Int("len_schema"), z3.Int("file_pos_at_entry")
         self.fs, self.loops, self.cols = FS(), 0, None
+        self.frame = Frame(self.rows)
 
 
 def run_make_row_group(ctx, funcs, timeout):
@@ -1649,13 +1725,9 @@ def run_make_row_group(ctx, funcs, timeout):
         nv = cd.h.len(eng, p) if isinstance(cd, Custom) and hasattr(cd.h, "len") else PyI(fresh_int("len_coldata"))
         md = Rec("ColumnMetaData", {"total_uncompressed_size": PyI(tu), "total_compressed_size": PyI(tc), "num_values": nv})
         ch = Rec("ColumnChunk", {"meta_data": Custom(md)})
-        key = cd.h.key if isinstance(cd, Custom) and isinstance(cd.h, ColData) else None
-        key_j = None
-        if isinstance(key, Opaque) and isinstance(key.tag, tuple) and key.tag[0] in ("colname", "literal_name"):
-            key_j = key.tag[1]
         p.ghost["wc_calls"] = p.ghost.get("wc_calls", []) + [
-            {"chunk": ch, "col_j": col.h.j if isinstance(col, Custom) and isinstance(col.h, SchemaEl) else None, "key_j": key_j,
-             "file_ok": file_ok}]
+            {"chunk": ch, "col_j": col.h.j if isinstance(col, Custom) and isinstance(col.h, SchemaEl) else None,
+             "coldata": cd.h if isinstance(cd, Custom) and isinstance(cd.h, ColData) else None, "file_ok": file_ok}]
         return [(p, Custom(ch))]
 
     def h_literal_eval(eng, p, args, kw, node):
@@ -1663,6 +1735,7 @@ def run_make_row_group(ctx, funcs, timeout):
         j = a.tag[1] if isinstance(a, Opaque) and isinstance(a.tag, tuple) and a.tag[0] == "colname" else None
         bad = p.fork()
         raise_path(bad, "ValueError", node)
+        bad.ghost["literal_eval_failed"] = bad.ghost.get("literal_eval_failed", []) + [str(j)]
         return [(p, Opaque(("literal_name", j)) if j is not None else Opaque(("literal", next(eng.counter)))), (bad, NONE)]
 
     def h_sum(eng, p, args, kw, node):
@@ -1683,7 +1756,7 @@ def run_make_row_group(ctx, funcs, timeout):
     if solve(list(p.pc), timeout)[0] == REFUTED:
         ctx.vacuity["requires_sat"] += 1
     try:
-        outs = eng.run("make_row_group", p, [Custom(R.fs), Custom(Frame(R.rows)), Custom(Schema(R))],
+        outs = eng.run("make_row_group", p, [Custom(R.fs), Custom(R.frame), Custom(Schema(R))],
                        {"compression": Opaque("compression"), "stats": Opaque("stats")})
     except Unsupported as ex:
         res.add(tag + ".out_of_reach", UNKNOWN, None, 0.0, "engine", str(ex))
